@@ -281,6 +281,7 @@ func parseFile(rootParser *Parser, filename string, definitions map[string]strin
 	if err != nil {
 		logger.Fatal().Msgf("cannot open file for parsing: %v", err.Error())
 	}
+	defer readFile.Close()
 	newP := NewParser(rootParser.ctx, bufio.NewReader(readFile))
 	if definitions != nil {
 		newP.variables = definitions
